@@ -1,4 +1,9 @@
+//! vf-fn: properties about the function libraries (aggregate state laws, scalar function representations).
+mod c07;
+mod vals;
+
 fn main() {
-    eprintln!("no sub-commands yet");
-    std::process::exit(2);
+    vf_kit::dispatch! {
+        "c07" => c07::C07,
+    }
 }
